@@ -31,6 +31,7 @@ fn main() {
         .unwrap_or(0);
     let out = arg(&args, "--out").unwrap_or_else(|| "trace.ndjson".to_string());
     trace::silence_panics();
+    trace::journal_open(&format!("{out}.journal"));
     match args[1].as_str() {
         "dec" => {
             let mut t = trace::Tracer::create(&out);
